@@ -67,9 +67,9 @@ def run(ctx: Ctx) -> None:
         ctx.need(len(unp) == 1, f'{mname}: the optimisation result is unpacked')
         xstar = unparse(unp[0].targets[0].elts[0])
         ev = [n for n in walk_no_nested(e.node) if isinstance(n, (ast.Assign, ast.AnnAssign)) and isinstance(n.value, ast.Call) and unparse(n.value.func) in ('self.calculate_likelihood_and_derivatives', 'self.calculate_likelihood') and n.lineno > unp[0].lineno]
-        ok = len(ev) == 1 and unparse(ev[0].value.args[0]) == xstar
-        kws = {k.arg: unparse(k.value) for k in ev[0].value.keywords} if ev else {}
-        ok = ok and kws.get('scaled') == 'False'
+        bound = prog.bind_call(e, ev[0].value) if len(ev) == 1 else None
+        kws = {k: unparse(v) for k, v in (bound or {}).items()}
+        ok = bound is not None and kws.get('x') == xstar and kws.get('scaled') == 'False'
         ctx.add('C07.R2', f'BIOGEME.{mname}:final-evaluation', ok, (e.file, ev[0].lineno if ev else e.line), f'the final likelihood is evaluated at {xstar}, unscaled' if ok else f'final evaluation: {unparse(ev[0].value) if ev else "missing"}', unparse(ev[0].value) if ev else '')
         rr = [c for c in walk_no_nested(e.node) if isinstance(c, ast.Call) and unparse(c.func).endswith('RawResults')]
         okr = len(rr) == 1 and len(rr[0].args) >= 3 and unparse(rr[0].args[0]) == 'self' and unparse(rr[0].args[1]) == xstar
